@@ -544,8 +544,11 @@ def write_evidence(ctx, mod, violations):
         "wall_s": round(time.time() - ctx.t0, 2),
         "violations": violations,
     }
-    d = VERIF / "evidence"
-    d.mkdir(exist_ok=True)
+    # evidence/<id>.json describes runs against /repo itself; a run against a scratch copy (VERIF_REPO: seeded
+    # changes, mutation self-tests) writes next to it under evidence/scratch/ (not committed)
+    scratch = os.environ.get("VERIF_REPO") not in (None, "", "/repo")
+    d = VERIF / "evidence" / "scratch" if scratch else VERIF / "evidence"
+    d.mkdir(parents=True, exist_ok=True)
     (d / f"{ctx.pid}.json").write_text(json.dumps(ev, indent=1, default=str))
 
 
